@@ -57,8 +57,11 @@ def run(ctx):
         good = [c for c in cases if c["term"]]
         for c in cases:
             if not c["term"]:
-                failures.append({"what": f"program {c['prog']}: {c['error']} (k={c['stats'].get('k')}, rewriter={c['stats'].get('rewriter')})",
-                                 "stats": c["stats"], "stub": c.get("stub", "")[:4000]})
+                rec = {"what": f"program {c['prog']}: {c['error']} (k={c['stats'].get('k')}, rewriter={c['stats'].get('rewriter')})",
+                       "stats": c["stats"], "stub": c.get("stub", "")[:4000]}
+                if c.get("finding"):
+                    rec["finding"] = c["finding"]
+                failures.append(rec)
         header = f"From MT Require Import E2ECases.\nDefinition h : hierarchy := {b['hierarchy']}.\n"
         outs = common.run_coq_shards(ctx.work, f"c01_{bi}", header, [c["term"] for c in good], "e2ecase",
                                      "bad (verdict_e2e h) 0 cases", shard_size=40)
